@@ -505,3 +505,30 @@ Proof.
   unfold line_children. cbv zeta. destruct (index_of k marked) as [i|]; [|reflexivity].
   f_equal; [lia | f_equal; lia].
 Qed.
+
+(* ------------------------------------------------------------------ histories *)
+(* any sequence of uniform and adaptive steps (with whatever tables / markings each step uses):
+   the vertices of the initial mesh keep their indices and positions *)
+Inductive rstep : Type :=
+| SUniform (s : spec) (dim : nat) (tb : tables)
+| SAdaptive (blocks : list (list bool * list (list nref))) (tb : tables) (F : marks).
+
+Definition apply_rstep (p : list point) (st : rstep) : list point :=
+  match st with
+  | SUniform s dim tb => fst (uniform_block s dim p tb)
+  | SAdaptive blocks tb F => as_p (split_elements blocks p tb F)
+  end.
+
+Lemma apply_rstep_prefix p st : firstn (length p) (apply_rstep p st) = p.
+Proof.
+  destruct st as [s dim tb | blocks tb F]; simpl.
+  - apply refine_p_prefix.
+  - rewrite firstn_app, Nat.sub_diag, firstn_all. simpl. now rewrite app_nil_r.
+Qed.
+
+Theorem history_old_vertices steps : forall p, firstn (length p) (fold_left apply_rstep steps p) = p.
+Proof.
+  induction steps as [|st steps IH]; intros p; simpl; [apply firstn_all|].
+  pose proof (apply_rstep_prefix p st) as H1. pose proof (IH (apply_rstep p st)) as H2.
+  exact (firstn_prefix_trans p (apply_rstep p st) _ H1 H2).
+Qed.
